@@ -46,6 +46,56 @@ type c09Backend struct {
 	failUpload map[string]int
 	failFetch  map[string]int
 	injected   int
+	// park: the first Upload/Fetch of one key waits inside the backend until
+	// the harness releases it, then fails (without effect) or proceeds.
+	park *c09Park
+}
+
+type c09Park struct {
+	key, op string // op: upload | fetch
+	fail    bool   // set by the harness before release
+	entered chan struct{}
+	release chan struct{}
+	used    atomic.Bool
+	active  atomic.Bool
+	once    sync.Once
+}
+
+func c09NewPark(key, op string) *c09Park {
+	return &c09Park{key: key, op: op, entered: make(chan struct{}), release: make(chan struct{})}
+}
+
+func (p *c09Park) releaseWith(fail bool) {
+	p.once.Do(func() {
+		p.fail = fail
+		close(p.release)
+	})
+}
+
+// parked reports how many operations are currently held inside the hook.
+func (b *c09Backend) parked() int64 {
+	if p := b.park; p != nil && p.active.Load() {
+		return 1
+	}
+	return 0
+}
+
+func (b *c09Backend) parkPoint(op, key string) error {
+	p := b.park
+	if p == nil || p.op != op || p.key != key || !p.used.CompareAndSwap(false, true) {
+		return nil
+	}
+	p.active.Store(true)
+	close(p.entered)
+	<-p.release
+	p.active.Store(false)
+	if p.fail {
+		b.mu.Lock()
+		b.injected++
+		b.mu.Unlock()
+		return fmt.Errorf("c09 backend: injected transient %s failure for %q (after being held)", op, key)
+	}
+	return nil
 }
 
 func (b *c09Backend) armed(key string) bool {
@@ -69,6 +119,9 @@ func (b *c09Backend) Upload(ctx context.Context, key string, data []byte, opts *
 	if err := ctx.Err(); err != nil {
 		return err
 	}
+	if err := b.parkPoint("upload", key); err != nil {
+		return err
+	}
 	b.mu.Lock()
 	defer b.mu.Unlock()
 	if b.failUpload[key] > 0 {
@@ -82,6 +135,9 @@ func (b *c09Backend) Upload(ctx context.Context, key string, data []byte, opts *
 
 func (b *c09Backend) Fetch(ctx context.Context, key string) ([]byte, error) {
 	if err := ctx.Err(); err != nil {
+		return nil, err
+	}
+	if err := b.parkPoint("fetch", key); err != nil {
 		return nil, err
 	}
 	b.mu.Lock()
@@ -338,56 +394,94 @@ type c09Sub struct {
 	Chain    [][]byte // submitted DER chain (nil for bodies that carry none)
 	LeafDER  []byte   // the certificate whose appearance in the log is tracked
 
+	// how a body that is not a plain chain tuple is judged: "" = must be
+	// rejected, "accept" = must be accepted, "observe" = conditional invariants only
+	expect string
+
 	code int
 	resp []byte
+	done atomic.Bool
+}
+
+// c09Flight tracks submissions posted concurrently through the real handler.
+// No verdict depends on timing: the polling only decides when to call sequence().
+type c09Flight struct {
+	env      *c09Env
+	launched int64
+	finished atomic.Int64
+}
+
+func (f *c09Flight) launch(s *c09Sub) {
+	f.launched++
+	go func() {
+		rec := httptest.NewRecorder()
+		req := httptest.NewRequest("POST", "/ct/v1/"+s.Endpoint, bytes.NewReader(s.Body))
+		req.Header.Set("Content-Type", "application/json")
+		f.env.handler.ServeHTTP(rec, req)
+		s.code, s.resp = rec.Code, rec.Body.Bytes()
+		s.done.Store(true)
+		f.finished.Add(1)
+	}()
+}
+
+// settle waits until every launched request is answered, parked in the pool,
+// or parked inside the backend hook; or until limit of real time has passed
+// (limit 0: a 5 minute watchdog that is an engine error). It reports whether
+// everything settled.
+func (f *c09Flight) settle(limit time.Duration) bool {
+	e := f.env
+	start := time.Now()
+	last, lastChange := int64(-1), time.Now()
+	for {
+		e.log.poolMu.Lock()
+		pending := int64(len(e.log.currentPool.pendingLeaves))
+		e.log.poolMu.Unlock()
+		sum := f.finished.Load() + pending + e.be.parked()
+		if sum >= f.launched {
+			return true
+		}
+		if sum != last {
+			last, lastChange = sum, time.Now()
+		} else if limit == 0 && pending > 0 && time.Since(lastChange) > 3*time.Second {
+			return false // some requests share a pool entry; sequence what is there
+		}
+		if limit > 0 && time.Since(start) > limit {
+			return false
+		}
+		if limit == 0 && time.Since(start) > 5*time.Minute {
+			c09Fail("watchdog: %d of %d requests answered, %d pending", f.finished.Load(), f.launched, pending)
+		}
+		runtime.Gosched()
+		time.Sleep(100 * time.Microsecond)
+	}
+}
+
+func (f *c09Flight) sequence() {
+	if err := f.env.log.sequence(context.Background()); err != nil {
+		c09Fail("sequence: %v", err)
+	}
+}
+
+// drain settles and sequences until every launched request is answered.
+func (f *c09Flight) drain() {
+	for f.finished.Load() < f.launched {
+		f.settle(0)
+		if f.finished.Load() == f.launched {
+			break
+		}
+		f.sequence()
+	}
 }
 
 // submitAll posts every submission through the real handler concurrently,
 // waits until each is either answered or parked in the pool, and sequences;
-// repeated until every request is answered. No verdict depends on timing: the
-// polling only decides when to call sequence().
+// repeated until every request is answered.
 func (e *c09Env) submitAll(subs []*c09Sub) {
-	var finished atomic.Int64
+	f := &c09Flight{env: e}
 	for _, s := range subs {
-		go func() {
-			rec := httptest.NewRecorder()
-			req := httptest.NewRequest("POST", "/ct/v1/"+s.Endpoint, bytes.NewReader(s.Body))
-			req.Header.Set("Content-Type", "application/json")
-			e.handler.ServeHTTP(rec, req)
-			s.code, s.resp = rec.Code, rec.Body.Bytes()
-			finished.Add(1)
-		}()
+		f.launch(s)
 	}
-	n := int64(len(subs))
-	watchdog := time.Now().Add(5 * time.Minute)
-	for finished.Load() < n {
-		last, lastChange := int64(-1), time.Now()
-		for {
-			e.log.poolMu.Lock()
-			pending := int64(len(e.log.currentPool.pendingLeaves))
-			e.log.poolMu.Unlock()
-			sum := finished.Load() + pending
-			if sum >= n {
-				break
-			}
-			if sum != last {
-				last, lastChange = sum, time.Now()
-			} else if pending > 0 && time.Since(lastChange) > 3*time.Second {
-				break // some requests share a pool entry; sequence what is there
-			}
-			if time.Now().After(watchdog) {
-				c09Fail("watchdog: %d of %d requests answered, %d pending", finished.Load(), n, pending)
-			}
-			runtime.Gosched()
-			time.Sleep(100 * time.Microsecond)
-		}
-		if finished.Load() == n {
-			break
-		}
-		if err := e.log.sequence(context.Background()); err != nil {
-			c09Fail("sequence: %v", err)
-		}
-	}
+	f.drain()
 }
 
 func c09Body(chain [][]byte) []byte {
